@@ -53,7 +53,7 @@ def row_all(d):
     blind = mj.get("first_status", "?")
     return f"| {sid} | {summ} | {blind} | {r.get('status', '?')}{': ' + rule if rule else ''} |"
 
-for rnd, name in (("r3", "ROUND3"), ("r4", "ROUND4"), ("r5", "ROUND5"), ("r6", "ROUND6")):
+for rnd, name in (("r3", "ROUND3"), ("r4", "ROUND4"), ("r5", "ROUND5"), ("r6", "ROUND6"), ("r7", "ROUND7")):
     rr = [d for d in sorted(glob.glob(f"{V}/seeded/C??-{rnd}-*"))]
     if rr and f"<!-- {name}:BEGIN -->" in s:
         head = "| seed | what it changes | blind verdict (checks as they stood on arrival) | now (all 20 checks) |\n|---|---|---|---|\n"
